@@ -13,7 +13,8 @@ CHECKS = {
              "is restored twice (addresses take effect at the NCP's next reset). NetInfoMC shows the contract satisfiable by the "
              "intended procedure for versions 4..14 and that lost keys / late counters are caught. The real write_network_info + "
              "load_network_info(load_devices=True) run for every version 4..14 x NCP capability against the simulated NCP store with "
-             "generated settings (12 quick / 300 thorough per version); TLC judges each run (Trace_NetInfo).",
+             "generated settings (12 quick / 300 thorough per version); TLC judges each run (Trace_NetInfo)."
+             " Children may carry reserved network addresses; after the round trip the child in the lowest slot leaves and the settings are read again (ReadMatchesStore).",
         design_ref="3/C14",
         note="Trusted: compat shim, simulated NCP store (ncp_netinfo.py) answering ~30 commands in every version's result shapes. From "
              "version 5 on only the well-known link key round-trips (stated limitation of bellows). One defect found and fixed (v14 "
@@ -32,7 +33,8 @@ CHECKS = {
              "own call's value or exception; plain calls return nothing; dropped and refused calls never run; nothing blocks). The loop on which "
              "the proxy attribute was looked up is a free parameter of the model (it has no influence): bound wrappers fetched on one loop and "
              "invoked from the other are part of every scenario family."
-             " Owner-loop states: running, open but not started yet (the calls are queued and run once it starts), closed; owner either a plain thread or bellows' EventLoopThread (start / force_stop with calls in flight).",
+             " Owner-loop states: running, open but not started yet (the calls are queued and run once it starts), closed; owner either a plain thread or bellows' EventLoopThread (start / force_stop with calls in flight)."
+             " What the owner's loop reports for a queued plain call is part of the model (a call handing back any value - also 0 / False / empty - is reported as a TypeError); kinds include plain methods returning falsy values and a plain function wrapping a coroutine function.",
         design_ref="3/C20",
         note="Real OS threads: schedules are sampled, not enumerated; the verdict depends only on per-thread order, never on wall-clock "
              "order across threads (generous wall-clock limits only detect blocking). A stopped-but-not-closed loop is outside the property.",
@@ -50,7 +52,8 @@ CHECKS = {
              "the harness as NCP, each ended by timeout, cancellation or a further event (scans: cancellation / command timeout after every "
              "prefix of every event order, then late frames and a further scan), plus repeated operations; TLC validates outcome, "
              "exact timeout instant, scan results and that listener / callback bookkeeping is back to its prior size after every operation."
-             " Every refusal status of the command's status family is used in turn for scan / form / leave, followed by another operation's events.",
+             " Every refusal status of the command's status family is used in turn for scan / form / leave, followed by another operation's events."
+             " spec/StatusWaiters.tla models the listener registry under several waiters at once (also waiters that stay inside their block after their event): model-checked (NoMiss, NoSpurious) and bound to 2..3 concurrent wait_for_stack_status blocks of the real EZSP in every order of events, cancellations and timeouts.",
         design_ref="3/C17",
         note="Trusted: compat shim (bring-up), fake gateway + NcpEzsp encoder, virtual time. Residue is read from EZSP._stack_status_listeners "
              "and EZSP._callbacks (the bookkeeping the property names). A scan has no timeout of its own in the code and none is claimed.",
@@ -65,7 +68,8 @@ CHECKS = {
              "harness's own byte-level encoder builds the callback frames (120 quick / 1500 thorough incoming messages incl. all message "
              "types, payload lengths 0..100, RSSI extremes; all status x decision combinations) in the version's field order and header "
              "layout and feeds them through EZSP.frame_received into the real ControllerApplication; TLC judges what zigpy received."
-             " Defined message types make up half of the generated callbacks; earlier callbacks are repeated (identical, or sharing sender and APS sequence) between other traffic: every callback yields its own packet.",
+             " Defined message types make up half of the generated callbacks; earlier callbacks are repeated (identical, or sharing sender and APS sequence) between other traffic: every callback yields its own packet."
+             " The same callbacks are also fed to applications brought up by their own connect() / start_network() - first, second and third connection of one application object - and NCP versions 15 / 16 are included.",
         design_ref="3/C13",
         note="Input-quantified mapping; the TLA+ text is the independent reference and TLC the evaluator. Trusted: compat shim, the "
              "harness's encoder (frame IDs, field orders and enum codes pinned from the EZSP reference), instance-level wrappers of "
@@ -82,7 +86,8 @@ CHECKS = {
              "retry, bounded wait) for two concurrent requests against arbitrary NCP answers and confirmations (345k states). The real "
              "ControllerApplication.send_packet runs over the real EZSP for versions 4..14 against the simulated NCP: unicasts (plain, "
              "source route, extended timeout, IEEE-addressed) x 6 enqueue-status sequences x 10 confirmation patterns, concurrent and "
-             "staggered mixes with multicast / broadcast and unsolicited confirmations, random mixes; TLC validates each run.",
+             "staggered mixes with multicast / broadcast and unsolicited confirmations, random mixes; TLC validates each run."
+             " NCP versions 15 and 16 (newest known tables) are included.",
         design_ref="3/C12",
         note="Trusted: zigpy.util.Requests shim (compat.py), simulated EZSP NCP (enqueue answers; messageSentHandler in the version's "
              "field order), virtual time. RETRY_DELAYS and APS_ACK_TIMEOUT read from the tree (configuration).",
@@ -104,7 +109,8 @@ CHECKS = {
              "that may send an ERROR frame or lose the connection at any moment: EZSP stopped and silent after the request, request only "
              "on failure, and (liveness, fair timers and line) every issued call returns or raises; runs of the real full stack with every "
              "failure kind after each of the first wire steps (registered or not) and random fault / failure schedules on versions 4..14 "
-             "must be behaviours of the composed model (Trace_Stack, SilentAfterRequest / StoppedAfterRequest on every state).",
+             "must be behaviours of the composed model (Trace_Stack, SilentAfterRequest / StoppedAfterRequest on every state)."
+             " Workloads include a list command (scan) in progress, a command after a completed scan, and an NCP silent from the start; failure kinds include a deliberate close on a transport that reports the closed connection late.",
         design_ref="3/C10",
         note="Trusted: full-stack rig (fake serial transport that stops delivering reads once closed, simulated ASH + EZSP NCP), virtual "
              "time. A silent NCP is noticed only when something is sent (the harness issues the keep-alive a watchdog would); an "
@@ -121,7 +127,8 @@ CHECKS = {
              "NCP versions x serial / socket:// paths x start-up reset absent / in the wait window / late / with the host's RST still "
              "unread x line-fault schedules x NCP windows 1..3 through startup_reset, write_config, a second reset, version and a "
              "command; TLC validates the frames seen by the NCP's EZSP layer and every stage outcome (Trace_Bringup)."
-             " Besides raw commands, composite operations of the version's protocol handler (read_counters, read_and_clear_counters) are issued after bring-up and again after a later reset + negotiation (every frame for that version, also through previously used entry points).",
+             " Besides raw commands, composite operations of the version's protocol handler (read_counters, read_and_clear_counters) are issued after bring-up and again after a later reset + negotiation (every frame for that version, also through previously used entry points)."
+             " socket:// runs also have the start-up reset announced before anybody waits; every run contains a second, application-style start-up (stop, startup_reset, write_config) before or after the explicit reset, and Trace_Bringup requires every start-up / reset to have performed the reset handshake.",
         design_ref="3/C09",
         note="Trusted: simulated ASH NCP (validated against AshNcp.tla in C01) and EZSP NCP; faults hit DATA/ACK/NAK only (bellows does not "
              "retransmit RST). One defect fixed (KeyError for version >= 15); one known finding listed in known_findings.json (start-up "
@@ -137,7 +144,8 @@ CHECKS = {
              "virtual time through RSTACK (16 codes quick / all 256 thorough) and ERROR frames x 7 arrival patterns after prior traffic "
              "leaving the counters anywhere in 0..7, followed by a send and a DATA frame numbered 0, with the connection lost before every "
              "step (error, clean close, EOF) or queued right behind every read; TLC validates each run against Trace_Gateway "
-             "(CANCEL-prefixed RST, outcome and exact time of reset()/wait_for_startup_reset(), application notices, numbering on the wire).",
+             "(CANCEL-prefixed RST, outcome and exact time of reset()/wait_for_startup_reset(), application notices, numbering on the wire)."
+             " Arrival patterns include a DATA frame in flight when the reset is requested (its acknowledgement and the RSTACK in one read / two reads).",
         design_ref="3/C11",
         note="Trusted: fake serial transport (close() reports connection_lost(None) from the loop), virtual time, ashref.py. A caller that "
              "joins a reset in progress may see a cancellation instead of the timeout (latitude; the code logs such a request as an error). "
@@ -152,7 +160,8 @@ CHECKS = {
              "For every protocol version 4..14, with and without a pending command, the real EZSP.frame_received is fed valid responses "
              "and callbacks of up to 12 commands mutated by truncation at every length, a byte flip at every position, frame-ID and "
              "sequence substitution, surplus bytes, and random byte strings (120 quick / 3000 thorough per version); each run continues "
-             "with the pending call's real reply and a probe command that must complete; TLC validates each run.",
+             "with the pending call's real reply and a probe command that must complete; TLC validates each run."
+             " A handler swap (EZSP.reset() -> legacy handler) with a call still waiting is part of EzspCmd.tla (SwapFn: the orphaned call ends by its own timeout, nothing may complete it); legacy frames under the orphan's number are fed, above all the v4 command owning the same numeric ID; `version` (frame ID 0) is one of the pending commands.",
         design_ref="3/C08",
         note="Trusted: EzspRig (fake gateway, virtual time). 'Decodes fully' is judged by re-encoding the delivered values with the schema "
              "types' own serialisers (TLC checks count, ID and prefix); surplus bytes after a decodable payload are tolerated.",
@@ -168,7 +177,8 @@ CHECKS = {
              "other for versions 4..16. For all 11 versions and every command (about 2,900 pairs, 1 sample quick / 8 thorough, values "
              "generated from the schema types incl. boundaries, undefined enum values, empty/long variable-length fields) the events are "
              "recorded from the real call path (EZSP._command -> gateway.send_data) and the real receive path (EZSP.frame_received) "
-             "and judged by TLC (Trace_EzspCodec).",
+             "and judged by TLC (Trace_EzspCodec)."
+             " Values leave trailing optional struct fields out; arguments are also passed in other representations the declared type accepts (plain ints / bytes / lists, instances of a subclass with another wire format).",
         design_ref="3/C07",
         note="Weak fit for TLA+: the specification decides order, framing, identity, uniqueness and round-trip equality; the byte encoding of "
              "individual field values is produced by the field types themselves (the property is the consistency of the codec pair). "
@@ -278,7 +288,8 @@ CHECKS = {
              "ACK/NAK/RST deliver nothing. Every edge of TLC's state graph is replayed on the real AshProtocol; all frame "
              "sequences up to length 2 (quick) / 3 (thorough) from each of the 8 expected-number states, all 256 reset/error "
              "codes and long random sequences are recorded from the real code and validated by TLC against Trace_AshHost, "
-             "with an observer that knows only the received frames evaluated on every state.",
+             "with an observer that knows only the received frames evaluated on every state."
+             " The rig's upper layer can be told to raise while consuming a delivery: the frame stays accepted and acknowledged exactly once, and nothing else may escape the receive callback (NoRaise).",
         design_ref="3/C04",
         note="Trusted: ashref.py encodes the peer's frames and decodes the host's writes (validated against AshCodec.tla in C03); "
              "well-formed frames only. ACK vs NAK for a non-accepted frame and the flow-control bits are left open, as the property does.",
@@ -293,7 +304,8 @@ CHECKS = {
              "timer's own loop iteration and answers arriving 1 ms before the timer, which drive the adaptive timeout up) up to length "
              "4 (quick) / 5 + length 6 over 6 core reactions (thorough: 0.7 M scripts, streamed in batches) x 3 workloads, all "
              "full-budget scripts, adaptive-timeout ramps, all codes and random long scripts run on the real AshProtocol in virtual "
-             "time; TLC validates each trace against Trace_AshHost incl. the 400..3200 ms bound on every timeout-driven step.",
+             "time; TLC validates each trace against Trace_AshHost incl. the 400..3200 ms bound on every timeout-driven step."
+             " Callers are cancelled at every point of short scripts (in flight, during a retransmission wait, while queued): invisible on the link (cancelled-caller set in Trace_AshHost).",
         design_ref="3/C05",
         note="Trusted: virtual-time loop (bv.vloop) with bellows.ash's `time` rebound to it; ashref.py. Retry budget read from the "
              "tree (configuration); ACK timeout bounds and error code 0x51 pinned from the ASH text.",
@@ -319,7 +331,8 @@ CHECKS = {
              "random histories beyond the bounds, and the same initial tables programmed with other non-zero "
              "endpoints: 2, 255, mixed) is validated by TLC against Trace_Multicast with the observed "
              "status, table write, NCP table and behaviourally probed host view bound at each step."
-             " Initial tables also carry free entries with left-over group ids (what unsubscribe leaves behind), including the id of a group that is live at another index, and histories contain restarts (a second start-up scan over the table the host itself produced).",
+             " Initial tables also carry free entries with left-over group ids (what unsubscribe leaves behind), including the id of a group that is live at another index, and histories contain restarts (a second start-up scan over the table the host itself produced)."
+             " NcpChange: the NCP's table changes behind the host's back and start-up runs again on the same object (every pair of tables). Overlapping calls: spec/MulticastConc.tla (Begin / End per call) is model-checked for calls on different groups and bound to the real object with table writes answered when the schedule says so; overlapping calls for the same group are a recorded deviation (TLC counter-example required).",
         design_ref="3/C15",
         note="Trusted: command-level simulated NCP (does not apply rejected/timed-out writes), deep-copy "
              "behavioural probes of the host view, TLC.",
